@@ -372,4 +372,55 @@ fn build_failures(w: &World, m: usize, ctx: &mut Ctx) {
             }
         });
     }
+    // local operations that fail because of the storage: with an own Update outstanding and an
+    // own commit pending, applying the commit (directly, or as the echo of the own message)
+    // while every storage call of that operation fails once must leave everything as it was
+    stores::with_fork(|| {
+        let mut g = w.g(m).clone();
+        if !g.get_cached_proposals().is_empty() || g.has_pending_commit() {
+            return;
+        }
+        if g.propose_update(vec![]).is_err() {
+            return;
+        }
+        let Ok(out) = g.commit_builder().build() else { return };
+        for echo in [false, true] {
+            let n_calls = stores::with_fork(|| {
+                stores::peek(m as u32, |st| st.reset_calls());
+                let mut g2 = g.clone();
+                let _ = if echo { g2.process_incoming_message_with_time(out.commit_message.clone(), time(w.clock)).map(|_| ()) } else { g2.apply_pending_commit().map(|_| ()) };
+                stores::peek(m as u32, |st| st.calls.len())
+            });
+            for k in 0..n_calls {
+                stores::with_fork(|| {
+                    stores::peek(m as u32, |st| {
+                        st.reset_calls();
+                        st.fail_calls.insert(k);
+                    });
+                    let mut g2 = g.clone();
+                    let pre = effective(&g2, m as u32);
+                    ctx.eval();
+                    let r = if echo { g2.process_incoming_message_with_time(out.commit_message.clone(), time(w.clock)).map(|_| ()) } else { g2.apply_pending_commit().map(|_| ()) };
+                    let reached = stores::peek(m as u32, |st| st.calls.iter().any(|c| c.failed));
+                    stores::peek(m as u32, |st| st.reset_calls());
+                    if !reached {
+                        return;
+                    }
+                    let what = if echo { "own-commit-echo" } else { "apply-pending-commit" };
+                    ctx.goal("storage-fault-in-local-operation");
+                    match r {
+                        Ok(()) => ctx.outcome(format!("local-storage-fault:{what}:not-surfaced")),
+                        Err(e) => {
+                            ctx.outcome(format!("local-storage-fault:{what}:{}", err_name(&e)));
+                            let post = effective(&g2, m as u32);
+                            let d = diff(&pre, &post, &[]);
+                            if !d.is_empty() {
+                                ctx.violation_for("C04", format!("failed-operation-changed-state|{what}|{}|{}", err_name(&e), diff_classes(&d)), format!("{}: {what} failed with {e:?} (storage fault) but the state changed in {d:?}", w.parties[m].name));
+                            }
+                        }
+                    }
+                });
+            }
+        }
+    });
 }
